@@ -4,9 +4,9 @@ import subjects
 SPEC = dict(modules=["MemVerif.Props.C02", "MemVerif.Props.C02Pool"], gen_cfgs=("rwdi",),
             assumptions=["theorems cover the bump-stack family (fixed_memory_stack::allocate = static_allocator, try_allocate of "
                          "memory_stack/iteration_allocator, collection block carving) for every power-of-two alignment and fence size; "
-                         "memory_pool over the unordered and the ordered list (Props/C02Pool): every live allocation sits on the node grid of "
-                         "one block, aligned to alignment_for(node_size) given max_alignment-aligned blocks, arrays are n whole consecutive "
-                         "cells, for all histories; small-node pools and collections: alignment, size and contiguity checked by the harness "
+                         "memory_pool over all three lists (Props/C02Pool): every live allocation sits on the node grid of one block / chunk, "
+                         "aligned to alignment_for(node_size) given max_alignment-aligned blocks, arrays are n whole consecutive "
+                         "cells, for all histories; collections: alignment, size and contiguity checked by the harness "
                          "oracles on sampled histories"])
 
 
